@@ -110,10 +110,12 @@ func (r *responseStorer) StoreResponse(
 		ResponseID:   responseID,
 	}
 
+	replacedID := ""
 	if refIndex < 0 || refIndex >= len(refs) {
 		refs = append(refs, refEntry) // New response reference
 		refIndex = len(refs) - 1
 	} else {
+		replacedID = refs[refIndex].ResponseID
 		refs[refIndex] = refEntry // Update existing response reference
 	}
 	// A reference equal to the new one (same variant, same identifier) is
@@ -130,7 +132,17 @@ func (r *responseStorer) StoreResponse(
 		}
 	}
 
-	return r.cache.SetRefs(urlKey, refs)
+	if err := r.cache.SetRefs(urlKey, refs); err != nil {
+		return err
+	}
+	// The replaced reference may have named another stored response (the new
+	// one varies on other fields, so its identifier differs). Once no reference
+	// names it, it can never be read, replaced or invalidated again: remove it
+	// rather than leave one behind for every such replacement.
+	if replacedID != "" && !slices.ContainsFunc(refs, func(ref *ResponseRef) bool { return ref.ResponseID == replacedID }) {
+		_ = r.cache.Delete(replacedID)
+	}
+	return nil
 }
 
 var _ ResponseFreshener = (*responseStorer)(nil)
